@@ -59,7 +59,14 @@ Example C17_rewrite_needed : resolve (std_ast (TVec (TOption TString))) = None.
 Proof. reflexivity. Qed.
 (* a rewriter that forgets one of the five paths breaks C17_denotes *)
 Example C17_nonvacuous :
-  let t := TUser [1; 2] 12 [TResult (TBox (TSlice (TTuple [TPrim 0; TString]))) (TArray (TOption (TVec TStr)) 3)] in
+  let t := TUser [IUser 1; IUser 2] (IUser 12) [TResult (TBox (TSlice (TTuple [TPrim 0; TString]))) (TArray (TOption (TVec TStr)) 3)] in
   wf_ty t /\ resolve (rewrite (std_ast t)) = Some t /\ resolve (std_ast t) = None.
-Proof. split; [simpl; intuition congruence|split; reflexivity]. Qed.
+Proof. split; [simpl; intuition eauto|split; reflexivity]. Qed.
 Print Assumptions C17_nonvacuous.
+
+(* a user crate may have a module `string` with a type `String` (heapless::string::String ...): its recorded
+   name keeps the whole path and is not std's String *)
+Example C17_user_string :
+  let t := TUser [IUser 1; Istring] IString [] in
+  wf_ty t /\ resolve (rewrite (std_ast t)) = Some t /\ recorded_name t <> recorded_name TString.
+Proof. split; [simpl; eauto|split; [reflexivity|discriminate]]. Qed.
